@@ -17,6 +17,7 @@ import (
 	"github.com/ethereum/go-ethereum/common"
 	"github.com/ethereum/go-ethereum/crypto"
 	"github.com/shutter-network/shutter/shlib/shcrypto"
+	blst "github.com/supranational/blst/bindings/go"
 
 	"github.com/shutter-network/rolling-shutter/rolling-shutter/medley/identitypreimage"
 	"github.com/shutter-network/rolling-shutter/rolling-shutter/medley/testkeygen"
@@ -109,6 +110,13 @@ type Val struct {
 	Ident  string `json:"ident,omitempty"`  // hex: the identity it was computed for (share, key, junk)
 	Tag    int    `json:"tag,omitempty"`    // junk variant
 	Raw    string `json:"raw,omitempty"`    // hex (raw)
+	Terms  []Term `json:"terms,omitempty"`  // comb: the G1 sum of these values (negated where Neg)
+}
+
+// Term is one summand of a "comb" value.
+type Term struct {
+	Val Val  `json:"val"`
+	Neg bool `json:"neg,omitempty"`
 }
 
 func unhex(s string) []byte {
@@ -121,7 +129,7 @@ func unhex(s string) []byte {
 
 // Bytes produces the bytes with the repository's own key generator.
 func (m *Material) Bytes(v Val) []byte {
-	ck := fmt.Sprintf("%s|%d|%d|%s|%d|%s", v.Kind, v.Set, v.Keyper, v.Ident, v.Tag, v.Raw)
+	ck := fmt.Sprintf("%s|%d|%d|%s|%d|%s|%+v", v.Kind, v.Set, v.Keyper, v.Ident, v.Tag, v.Raw, v.Terms)
 	m.mu.Lock()
 	if b, ok := m.cache[ck]; ok {
 		m.mu.Unlock()
@@ -149,6 +157,22 @@ func (m *Material) Bytes(v Val) []byte {
 		b = m.NotG1
 	case "raw":
 		b = unhex(v.Raw)
+	case "inf":
+		b = new(blst.P1Affine).Compress() // the point at infinity, properly encoded
+	case "comb":
+		sum := new(blst.P1)
+		for _, t := range v.Terms {
+			p := new(blst.P1Affine).Uncompress(m.Bytes(t.Val))
+			if p == nil {
+				continue // bytes blst cannot uncompress count as the point at infinity, as in the code under test
+			}
+			if t.Neg {
+				sum.SubAssign(p)
+			} else {
+				sum.AddAssign(p)
+			}
+		}
+		b = sum.ToAffine().Compress()
 	default:
 		panic("val kind " + v.Kind)
 	}
